@@ -14,7 +14,8 @@ OBLIGATIONS = [
 ]
 PARTIAL = ["the graph-theoretic core of skeleton exactness is proved for every DAG (a true edge is never separable; the parents of one end point "
            "separate every non-adjacent pair); that the level-wise loops of the three variants enumerate those parent sets is not modelled; "
-           "soundness and completeness of the orientation rules (Meek) and completeness of the "
+           "soundness of the orientation rules R1-R3 is proved for every member of the class (C12_meek_rules_sound); their completeness (every "
+           "compelled edge gets oriented), that skeleton_to_pdag applies exactly these rules, and completeness of the "
            "Dor-Tarsi sink removal are decided exhaustively: all DAGs on <= 4 nodes (quick) / 5 nodes (thorough) as ground truth, both "
            "sequential variants, against the enumerated Markov class of the Lean spec"]
 RULE = ("ground truth = every labelled DAG on 2-4 nodes (all 5-node DAGs in thorough, random 6-node DAGs) x variants orig/stable (parallel "
